@@ -1,7 +1,7 @@
 """Build steps shared by every check: pygen, coq make, Print Assumptions capture, audit, jpx."""
 import fcntl, hashlib, os, re, shutil, subprocess, time
 
-ROOT = "/verif"
+ROOT = os.environ.get("VERIF_ROOT", "/verif")      # the registered commands use /verif; scratch copies (tools/mutcamp.py) set VERIF_ROOT
 COQ = os.path.join(ROOT, "coq")
 BUILD = os.path.join(ROOT, "build")
 REPO = os.environ.get("VERIF_REPO", "/repo")
